@@ -3,7 +3,8 @@
 //
 //   T N L d lm_0..lm_{L-1} dist(N*N, row major)          Landmark-MDS through the INTERNAL routines with
 //        harness-chosen landmarks (any order): compute_distance_matrix(landmarks) -> colwise mean ->
-//        centerMatrix -> *= -0.5 -> eigendecomposition(Dense, Largest) -> *= sqrt -> triangulate.
+//        centerMatrix -> *= -0.5 -> eigendecomposition(Dense, Largest) -> *= sqrt(max(.,0)) -> triangulate.
+//        (the harness repeats these lines of embed(); embed() itself is exercised by mode E)
 //        out: D2 (L*L) MU (L) B (L*L) LAM (d) V (L*d, before scaling) S (d, the sqrt values)
 //             YL (L*d, after scaling) EMB (N*d)
 //   I N L d k lm_0..lm_{L-1} dist(N*N)                   Landmark-Isomap through the internal routines:
@@ -270,8 +271,8 @@ static const char* run_case(const std::string& line)
         DenseVector s(d);
         for (IndexType i = 0; i < d; i++)
         {
-            s(i) = sqrt(landmarks_embedding.second(i));
-            landmarks_embedding.first.col(i).array() *= sqrt(landmarks_embedding.second(i));
+            s(i) = sqrt(std::max<ScalarType>(landmarks_embedding.second(i), 0.0));
+            landmarks_embedding.first.col(i).array() *= sqrt(std::max<ScalarType>(landmarks_embedding.second(i), 0.0));
         }
         putv("S", s);
         put("YL", landmarks_embedding.first);
